@@ -417,7 +417,7 @@ func runC07Proc(c *fw.Case) {
 	names := []string{"extract", "extract --in-place", "chop", "cache", "make", "untar -i"}
 	sig := []syscall.Signal{syscall.SIGINT, syscall.SIGTERM}[c.Draw(2, "proc.sig")]
 	n := []string{"1", "1", "3"}[c.Draw(3, "proc.n")]
-	c.Class(fmt.Sprintf("proc %s sig=%v n=%s", names[cmdKind], sig, n))
+
 	dir := c.Dir()
 	out := filepath.Join(dir, "out")
 	var (
@@ -466,7 +466,11 @@ func runC07Proc(c *fw.Case) {
 	if c.Bool("proc.prior") && cmdKind <= 1 {
 		prior = editBlob(c, blob, "prior")
 	}
-	c.Note("real `desync %s` sig=%v n=%s chunks=%d", names[cmdKind], sig, n, len(idx.Chunks))
+	// flags that change what the command does after the work (statistics instead of / in addition to the result)
+	printStats := (cmdKind == 0 || cmdKind == 1 || cmdKind == 4) && c.Bool("proc.printstats")
+	useCache := (cmdKind == 0 || cmdKind == 1 || cmdKind == 5) && c.Chance(1, 3, "proc.cache")
+	c.Note("real `desync %s` sig=%v n=%s chunks=%d print-stats=%v cache=%v", names[cmdKind], sig, n, len(idx.Chunks), printStats, useCache)
+	c.Class(fmt.Sprintf("proc %s sig=%v n=%s stats=%v cache=%v", names[cmdKind], sig, n, printStats, useCache))
 	var holdKind string
 	var args func(g *gateServer) []string
 	switch cmdKind {
@@ -476,6 +480,12 @@ func runC07Proc(c *fw.Case) {
 			a := []string{"extract", "-n", n, "-s", g.url()}
 			if cmdKind == 1 {
 				a = append(a, "--in-place")
+			}
+			if printStats {
+				a = append(a, "--print-stats")
+			}
+			if useCache {
+				a = append(a, "-c", cacheDir)
 			}
 			return append(a, indexFile, out)
 		}
@@ -490,11 +500,19 @@ func runC07Proc(c *fw.Case) {
 	case 4:
 		holdKind = "PUT"
 		args = func(g *gateServer) []string {
+			if printStats {
+				return []string{"make", "--print-stats", "-n", n, "-m", "1:4:16", "-s", g.url(), indexFile, blobFile}
+			}
 			return []string{"make", "-n", n, "-m", "1:4:16", "-s", g.url(), indexFile, blobFile}
 		}
 	case 5:
 		holdKind = "GET"
-		args = func(g *gateServer) []string { return []string{"untar", "-i", "-n", n, "-s", g.url(), indexFile, out} }
+		args = func(g *gateServer) []string {
+			if useCache {
+				return []string{"untar", "-i", "-n", n, "-s", g.url(), "-c", cacheDir, indexFile, out}
+			}
+			return []string{"untar", "-i", "-n", n, "-s", g.url(), indexFile, out}
+		}
 	}
 	reset := func() {
 		os.RemoveAll(out)
@@ -540,7 +558,7 @@ func runC07Proc(c *fw.Case) {
 					return "chunk " + s[:8] + " was not stored"
 				}
 			}
-			if cmdKind == 4 {
+			if cmdKind == 4 && !printStats {
 				f, err := os.Open(indexFile)
 				if err != nil {
 					return "no index file was written"
